@@ -62,7 +62,7 @@ def mutable_ids(state):
 
 
 def apply_script(state, script):
-    for name, args in script:
+    for name, args, *_ in script:
         getattr(state, name)(*driver.decode_args(args))
 
 
